@@ -1,6 +1,6 @@
 //! Group `carrier`: C02 — results do not depend on how adapters batch or pre-fetch their inputs.
 //!
-//! * `BatchingAdapter<A>`: the repo's `VariableBatchingAdapter` / `VariableChunkIterator`
+//! * `BatchingAdapter<A>` (now in `engine/batching.rs`, shared with C15): the repo's `VariableBatchingAdapter` / `VariableChunkIterator`
 //!   (`trustfall_core/fuzz/fuzz_targets/adapter_batching/mod.rs`, = the test module of `execution.rs`)
 //!   re-implemented over the public API and generalised: per adapter call one schedule entry decides
 //!   which side is re-batched (the inner adapter's *output*, as in the repo; its *input* contexts; both)
@@ -19,7 +19,7 @@
 mod engine;
 
 use std::cell::{Cell, RefCell};
-use std::collections::{BTreeMap, BTreeSet, VecDeque};
+use std::collections::{BTreeMap, BTreeSet};
 use std::rc::Rc;
 use std::sync::Arc;
 
@@ -34,356 +34,13 @@ use trustfall_core::numbers_interpreter::NumbersAdapter;
 use trustfall_core::test_types::TestIRQuery;
 
 use crate::engine::adapter::{CallKind, Event, Hooks, Info, LoggingAdapter};
+use crate::engine::batching::{ALTERNATING, BatchingAdapter, ChunkIter, MAX, Sched, SizeLog, Sizes, parse_scheds, rand_schedules, std_schedules};
 use crate::engine::ir_sexp::{args_from_sexp, eid_num, ir_to_sexp, op_parts, vid_num};
 use crate::engine::run::{Answer, Row, execute, prepare, real_args};
 use crate::engine::worlds::{GenStats, WorldKnobs, gen_worlds};
 use tfharness::framework::*;
 use tfharness::rng::Rng;
 use tfharness::sexp::{Sexp, unhex};
-
-// ------------------------------------------------------------------------------------------------
-// schedules
-
-/// Chunk sizes of one wrapped iterator.
-#[derive(Debug, Clone, PartialEq)]
-pub enum Sizes {
-    /// `VariableChunkIterator::next_chunk_size`: 2-bit digits of the word, least significant first, `+ 1`
-    Word(u64),
-    /// explicit sizes (0 = an empty chunk), then everything that is left
-    List(Vec<usize>),
-}
-
-#[derive(Debug, Clone, Copy, PartialEq)]
-pub enum Mode {
-    /// re-batch the inner adapter's output (what the repo's wrapper does)
-    Out,
-    /// re-batch (pre-fetch) the input contexts before the inner adapter sees them
-    In,
-    Both,
-}
-
-#[derive(Debug, Clone, PartialEq)]
-pub struct Entry {
-    pub mode: Mode,
-    pub sizes: Sizes,
-}
-
-/// One schedule: the entries are consumed one per adapter call, in call order; afterwards `0`
-/// (`unwrap_or(0)` of the repo's wrapper) or, when `cyclic`, the entries again.
-#[derive(Debug, Clone, PartialEq)]
-pub struct Sched {
-    pub entries: Vec<Entry>,
-    pub cyclic: bool,
-}
-
-impl Entry {
-    fn word(w: u64) -> Entry {
-        Entry { mode: Mode::Out, sizes: Sizes::Word(w) }
-    }
-    fn to_sexp(&self) -> Sexp {
-        let m = match self.mode {
-            Mode::Out => "o",
-            Mode::In => "i",
-            Mode::Both => "b",
-        };
-        match (&self.mode, &self.sizes) {
-            (Mode::Out, Sizes::Word(w)) => Sexp::atom(w.to_string()),
-            (_, Sizes::Word(w)) => Sexp::list(vec![Sexp::atom(m), Sexp::atom(w.to_string())]),
-            (_, Sizes::List(v)) => {
-                let mut l = vec![Sexp::atom(m), Sexp::atom("k")];
-                l.extend(v.iter().map(|n| Sexp::atom(n.to_string())));
-                Sexp::list(l)
-            }
-        }
-    }
-    fn from_sexp(s: &Sexp) -> Option<Entry> {
-        if let Some(a) = s.as_atom() {
-            return Some(Entry::word(a.parse().ok()?));
-        }
-        let (m, rest) = s.as_call()?;
-        let mode = match m {
-            "o" => Mode::Out,
-            "i" => Mode::In,
-            "b" => Mode::Both,
-            _ => return None,
-        };
-        let sizes = match rest {
-            [w] if w.as_atom() != Some("k") => Sizes::Word(w.as_atom()?.parse().ok()?),
-            [k, ns @ ..] if k.as_atom() == Some("k") => {
-                Sizes::List(ns.iter().map(|n| n.as_atom()?.parse().ok()).collect::<Option<Vec<usize>>>()?)
-            }
-            _ => return None,
-        };
-        Some(Entry { mode, sizes })
-    }
-}
-
-impl Sched {
-    fn to_sexp(&self) -> Sexp {
-        Sexp::call(if self.cyclic { "cyc" } else { "sched" }, self.entries.iter().map(Entry::to_sexp).collect())
-    }
-    fn from_sexp(s: &Sexp) -> Option<Sched> {
-        let (h, rest) = s.as_call()?;
-        let cyclic = match h {
-            "sched" => false,
-            "cyc" => true,
-            _ => return None,
-        };
-        Some(Sched { entries: rest.iter().map(Entry::from_sexp).collect::<Option<Vec<_>>>()?, cyclic })
-    }
-}
-
-const MAX: u64 = u64::MAX;
-/// digits 0,1,2,3 repeating: chunk sizes 1,2,3,4,1,2,…
-const ALTERNATING: u64 = 0xE4E4_E4E4_E4E4_E4E4;
-
-fn all(mode: Mode) -> Entry {
-    Entry { mode, sizes: Sizes::List(vec![]) }
-}
-
-/// The fixed schedules every query is run under.
-pub fn std_schedules() -> Vec<Sched> {
-    let cyc = |e: Entry| Sched { entries: vec![e], cyclic: true };
-    let mut v = vec![
-        // the wrapper's default: every call pre-fetches one element
-        Sched { entries: vec![], cyclic: false },
-        // the schedule of `repro_issue_205`
-        Sched { entries: vec![Entry::word(0), Entry::word(0), Entry::word(MAX)], cyclic: false },
-        // chunks of 4 everywhere
-        cyc(Entry::word(MAX)),
-        cyc(Entry { mode: Mode::Both, sizes: Sizes::Word(MAX) }),
-        // 1,2,3,4,1,2,…
-        cyc(Entry::word(ALTERNATING)),
-        cyc(Entry { mode: Mode::In, sizes: Sizes::Word(ALTERNATING) }),
-        cyc(Entry { mode: Mode::Both, sizes: Sizes::Word(ALTERNATING) }),
-        // pre-fetch everything before the first output, on either side / both sides
-        cyc(all(Mode::Out)),
-        cyc(all(Mode::In)),
-        cyc(all(Mode::Both)),
-        // lazy until the first demand, then everything
-        cyc(Entry { mode: Mode::Both, sizes: Sizes::List(vec![0]) }),
-        // two ahead, then everything
-        cyc(Entry { mode: Mode::Both, sizes: Sizes::List(vec![2]) }),
-    ];
-    // the #205 shape at every position: all calls minimal, the i-th pre-fetches everything
-    for i in 0..12 {
-        let mut entries = vec![Entry::word(0); i];
-        entries.push(all(Mode::Both));
-        v.push(Sched { entries, cyclic: false });
-    }
-    v
-}
-
-fn rand_entry(rng: &mut Rng) -> Entry {
-    let mode = *rng.pick(&[Mode::Out, Mode::Out, Mode::In, Mode::Both, Mode::Both]);
-    let sizes = match rng.below(8) {
-        0 => Sizes::Word(0),
-        1 => Sizes::Word(MAX),
-        2 | 3 => Sizes::Word(rng.next_u64()),
-        4 => Sizes::List(vec![]),
-        _ => {
-            let n = rng.below(5);
-            Sizes::List((0..n).map(|_| rng.below(5)).collect())
-        }
-    };
-    Entry { mode, sizes }
-}
-
-pub fn rand_schedules(seed: u64, count: usize) -> Vec<Sched> {
-    let mut rng = Rng::new(seed);
-    (0..count)
-        .map(|_| {
-            let n = rng.below(25);
-            Sched { entries: (0..n).map(|_| rand_entry(&mut rng)).collect(), cyclic: rng.chance(1, 2) }
-        })
-        .collect()
-}
-
-/// `(scheds <spec>…)`, `spec := (std) | (rand <seed> <count>) | (sched <entry>…) | (cyc <entry>…)`.
-fn parse_scheds(s: &Sexp) -> Option<Vec<Sched>> {
-    let ("scheds", specs) = s.as_call()? else { return None };
-    let mut out = vec![];
-    for spec in specs {
-        match spec.as_call()? {
-            ("std", []) => out.extend(std_schedules()),
-            ("rand", [seed, count]) => out.extend(rand_schedules(seed.as_atom()?.parse().ok()?, count.as_atom()?.parse().ok()?)),
-            _ => out.push(Sched::from_sexp(spec)?),
-        }
-    }
-    Some(out)
-}
-
-// ------------------------------------------------------------------------------------------------
-// the chunk iterator and the batching adapter
-
-struct Sizer {
-    sizes: Sizes,
-    /// bit offset (word) or index (list)
-    offset: usize,
-}
-
-impl Sizer {
-    fn next_chunk_size(&mut self) -> usize {
-        match &self.sizes {
-            Sizes::Word(w) => {
-                let next_chunk = ((w >> self.offset) & 3) + 1;
-                if self.offset >= 62 {
-                    self.offset = 0;
-                } else {
-                    self.offset += 2;
-                }
-                next_chunk as usize
-            }
-            Sizes::List(v) => {
-                if self.offset < v.len() {
-                    self.offset += 1;
-                    v[self.offset - 1]
-                } else {
-                    usize::MAX
-                }
-            }
-        }
-    }
-}
-
-type SizeLog = Rc<RefCell<Vec<usize>>>;
-
-/// `VariableChunkIterator`: hands its input on unchanged and in order, but pulls it in chunks.
-pub struct ChunkIter<I: Iterator> {
-    iter: I,
-    buffer: VecDeque<I::Item>,
-    sizer: Sizer,
-    /// number of elements actually obtained per chunk (for the `chunk` correspondence)
-    log: Option<SizeLog>,
-}
-
-impl<I: Iterator> ChunkIter<I> {
-    pub fn new(iter: I, sizes: Sizes, log: Option<SizeLog>) -> Self {
-        let mut value = ChunkIter { iter, buffer: VecDeque::with_capacity(4), sizer: Sizer { sizes, offset: 0 }, log };
-        // Eagerly advancing the input iterator: the first chunk is pulled while the resolver call runs.
-        let chunk_size = value.sizer.next_chunk_size();
-        value.buffer.extend(value.iter.by_ref().take(chunk_size));
-        let got = value.buffer.len();
-        value.note(got);
-        value
-    }
-    fn note(&self, n: usize) {
-        if let Some(l) = &self.log {
-            l.borrow_mut().push(n);
-        }
-    }
-}
-
-impl<I: Iterator> Iterator for ChunkIter<I> {
-    type Item = I::Item;
-
-    fn next(&mut self) -> Option<Self::Item> {
-        if let Some(element) = self.buffer.pop_front() {
-            return Some(element);
-        }
-        let next = self.iter.next()?;
-        loop {
-            // an explicit size 0 is an empty chunk: take the next size
-            let size = self.sizer.next_chunk_size();
-            if size == 0 {
-                self.note(0);
-                continue;
-            }
-            let before = self.buffer.len();
-            self.buffer.extend(self.iter.by_ref().take(size - 1));
-            self.note(1 + self.buffer.len() - before);
-            break;
-        }
-        Some(next)
-    }
-}
-
-pub struct BatchingAdapter<A> {
-    inner: Rc<A>,
-    sched: Sched,
-    pos: Cell<usize>,
-}
-
-impl<A> BatchingAdapter<A> {
-    pub fn new(inner: Rc<A>, sched: Sched) -> Self {
-        BatchingAdapter { inner, sched, pos: Cell::new(0) }
-    }
-    /// `batch_sequences.pop_front().unwrap_or(0)`
-    fn pop(&self) -> Entry {
-        let i = self.pos.get();
-        self.pos.set(i + 1);
-        let n = self.sched.entries.len();
-        if i < n {
-            self.sched.entries[i].clone()
-        } else if self.sched.cyclic && n > 0 {
-            self.sched.entries[i % n].clone()
-        } else {
-            Entry::word(0)
-        }
-    }
-}
-
-fn rebatch<T: 'static>(it: Box<dyn Iterator<Item = T>>, on: bool, sizes: &Sizes) -> Box<dyn Iterator<Item = T>> {
-    if on { Box::new(ChunkIter::new(it, sizes.clone(), None)) } else { it }
-}
-
-impl<A: Adapter<'static> + 'static> Adapter<'static> for BatchingAdapter<A>
-where
-    A::Vertex: 'static,
-{
-    type Vertex = A::Vertex;
-
-    fn resolve_starting_vertices(
-        &self,
-        edge_name: &Arc<str>,
-        parameters: &EdgeParameters,
-        resolve_info: &ResolveInfo,
-    ) -> VertexIterator<'static, Self::Vertex> {
-        let e = self.pop();
-        let inner = self.inner.resolve_starting_vertices(edge_name, parameters, resolve_info);
-        rebatch(inner, e.mode != Mode::In, &e.sizes)
-    }
-
-    fn resolve_property<V: AsVertex<Self::Vertex> + 'static>(
-        &self,
-        contexts: ContextIterator<'static, V>,
-        type_name: &Arc<str>,
-        property_name: &Arc<str>,
-        resolve_info: &ResolveInfo,
-    ) -> ContextOutcomeIterator<'static, V, FieldValue> {
-        let e = self.pop();
-        let contexts = rebatch(contexts, e.mode != Mode::Out, &e.sizes);
-        let inner = self.inner.resolve_property(contexts, type_name, property_name, resolve_info);
-        rebatch(inner, e.mode != Mode::In, &e.sizes)
-    }
-
-    fn resolve_neighbors<V: AsVertex<Self::Vertex> + 'static>(
-        &self,
-        contexts: ContextIterator<'static, V>,
-        type_name: &Arc<str>,
-        edge_name: &Arc<str>,
-        parameters: &EdgeParameters,
-        resolve_info: &ResolveEdgeInfo,
-    ) -> ContextOutcomeIterator<'static, V, VertexIterator<'static, Self::Vertex>> {
-        let e = self.pop();
-        let contexts = rebatch(contexts, e.mode != Mode::Out, &e.sizes);
-        let inner = self.inner.resolve_neighbors(contexts, type_name, edge_name, parameters, resolve_info);
-        rebatch(inner, e.mode != Mode::In, &e.sizes)
-    }
-
-    fn resolve_coercion<V: AsVertex<Self::Vertex> + 'static>(
-        &self,
-        contexts: ContextIterator<'static, V>,
-        type_name: &Arc<str>,
-        coerce_to_type: &Arc<str>,
-        resolve_info: &ResolveInfo,
-    ) -> ContextOutcomeIterator<'static, V, bool> {
-        let e = self.pop();
-        let contexts = rebatch(contexts, e.mode != Mode::Out, &e.sizes);
-        let inner = self.inner.resolve_coercion(contexts, type_name, coerce_to_type, resolve_info);
-        rebatch(inner, e.mode != Mode::In, &e.sizes)
-    }
-}
 
 // ------------------------------------------------------------------------------------------------
 // the ownership plan, re-derived from the real IR (mirror of `Carrier.planOf`)
